@@ -22,10 +22,10 @@ Definition ops_ok : list op :=
     ODelete [2];
     OCreate [mkT 1 [] None]                      (* duplicate uuid: fails, rolled back *) ].
 
-Example C18_witness_partial_hypotheses :
-  run_known cur w_s0 ops_ok = false /\
-  map gdm (grps (run cur w_s0 ops_ok)) = [[1; 4]] /\
-  exactb (run cur w_s0 ops_ok) = true.
+Example C18_witness_history :
+  map gdm (grps (run tree w_s0 ops_ok)) = [[1; 4]] /\
+  exactb (run tree w_s0 ops_ok) = true /\
+  run_known cur w_s0 ops_ok = false.
 Proof. vm_compute. repeat split. Qed.
 
 Example C18_witness_inv_s0 : Inv w_s0.
@@ -33,11 +33,11 @@ Proof. exact inv_s0. Qed.
 
 (* every intermediate state of that history: membership really moves *)
 Example C18_witness_trace :
-  map (fun n => map gdm (grps (run cur w_s0 (firstn n ops_ok)))) [1; 2; 3; 4; 5; 6; 7]%nat
+  map (fun n => map gdm (grps (run tree w_s0 (firstn n ops_ok)))) [1; 2; 3; 4; 5; 6; 7]%nat
   = [[[]]; [[1]]; [[1; 2]]; [[]]; [[1; 2]]; [[1; 2; 4]]; [[1; 4]]].
 Proof. vm_compute. reflexivity. Qed.
 
-(* refutation witnesses: both known classes break exactness in the pinned tree ... *)
+(* refutation witnesses: both classes broke exactness in the tree before the fix ... *)
 Example C18_witness_k1_refuted :
   exactb (run cur w_s0 w_ops_k1) = false /\ run_known cur w_s0 w_ops_k1 = true
   /\ map gdm (grps (run cur w_s0 w_ops_k1)) = [[1]] /\ map fst (ents (run cur w_s0 w_ops_k1)) = [100].
@@ -46,16 +46,19 @@ Example C18_witness_k2_refuted :
   exactb (run cur w_s0 w_ops_k2) = false /\ run_known cur w_s0 w_ops_k2 = true
   /\ map gdm (grps (run cur w_s0 w_ops_k2)) = [[]; [101]].
 Proof. vm_compute. repeat split. Qed.
-(* ... and neither does with the patch *)
+Example C18_witness_k2_recfixed_refuted :
+  exactb (run recfixed w_s0 w_ops_k2) = false /\ exactb (run recfixed w_s0 w_ops_k1) = true.
+Proof. vm_compute. repeat split. Qed.
+(* ... and neither does in the tree *)
 Example C18_witness_fixed :
-  exactb (run fixedv w_s0 w_ops_k1) = true /\ exactb (run fixedv w_s0 w_ops_k2) = true
-  /\ map gdm (grps (run fixedv w_s0 w_ops_k2)) = [[101]; [101]].
+  exactb (run tree w_s0 w_ops_k1) = true /\ exactb (run tree w_s0 w_ops_k2) = true
+  /\ map gdm (grps (run tree w_s0 w_ops_k2)) = [[101]; [101]] /\ map gdm (grps (run tree w_s0 w_ops_k1)) = [[]].
 Proof. vm_compute. repeat split. Qed.
 
 (* the filter-change theorem's hypotheses are met by step 5 of ops_ok *)
 Example C18_witness_filter_change :
-  let s := run cur w_s0 (firstn 4 ops_ok) in
-  is_some (modify cur s [mkT 100 [] (Some fnotred)]) = true /\ k1 s [mkT 100 [] (Some fnotred)] = false.
+  let s := run tree w_s0 (firstn 4 ops_ok) in
+  is_some (modify tree s [mkT 100 [] (Some fnotred)]) = true /\ wfb s = true.
 Proof. vm_compute. split; reflexivity. Qed.
 
 (* a recorded case in the harness format on which model and dump agree *)
@@ -64,5 +67,5 @@ Definition w_case : case :=
     [ (OCreate [mkT 100 [isgrp] (Some w_fred)], mkO true [(0, [isgrp]); (100, [isgrp])] [mkG 100 w_fred []] []);
       (OCreate [mkT 1 [w_red] None], mkO true [(0, [isgrp]); (1, [w_red]); (100, [isgrp])] [mkG 100 w_fred [1]] []);
       (ODelete [1], mkO true [(0, [isgrp]); (100, [isgrp])] [mkG 100 w_fred []] [(1, [w_red])]) ].
-Example C18_witness_agree : agree w_case = true /\ known w_case = false /\ pcheck w_case = true.
+Example C18_witness_agree : agree w_case = true /\ pcheck w_case = true.
 Proof. vm_compute. repeat split. Qed.
